@@ -181,3 +181,18 @@ pub open spec fn fri_proof_ok<F: RichField + Extendable<D>, H: Hasher<F>, const 
             query_round_ok::<F, H, D>(instance, challenges, spec_reduced_openings(openings, challenges.fri_alpha), initial_merkle_caps,
                 proof, #[trigger] challenges.fri_query_indices[k], proof.query_round_proofs[k], params)
 }
+
+pub proof fn lemma_sum_bound_each(s: Seq<usize>)
+    ensures
+        forall|i: int| 0 <= i < s.len() ==> (#[trigger] s[i]) as nat <= sum_usize(s),
+    decreases s.len(),
+{
+    if s.len() > 0 {
+        lemma_sum_bound_each(s.drop_last());
+        assert forall|i: int| 0 <= i < s.len() implies (#[trigger] s[i]) as nat <= sum_usize(s) by {
+            if i < s.len() - 1 {
+                assert(s.drop_last()[i] == s[i]);
+            }
+        }
+    }
+}
